@@ -56,6 +56,33 @@ pub struct Observed {
 pub fn observe(out: &mut Out, sp: &mut ServerProc, pk: &[u8], nworkers: usize, rng: &mut Rng, window: Duration) -> Vec<(String, String)> {
     let mut v: Vec<(String, String)> = Vec::new();
     let t0 = Instant::now();
+    // light traffic for the whole observation window, from fresh source ports: "stays alive and
+    // answers requests" is judged over the window, not at two instants
+    let bg_stop = std::sync::Arc::new(std::sync::atomic::AtomicBool::new(false));
+    let bg = {
+        let (stop, pkc, port, s0) = (bg_stop.clone(), pk.to_vec(), sp.cfg.port, rng.next_u64());
+        std::thread::spawn(move || {
+            let mut r = Rng::new(s0);
+            let (mut ok, mut unanswered, mut invalid) = (0u32, 0u32, 0u32);
+            let mut first_fail: Option<String> = None;
+            while !stop.load(std::sync::atomic::Ordering::Relaxed) {
+                let proto = if r.chance(1, 3) { Proto::Ietf } else { Proto::Classic };
+                match probe(port, &pkc, proto, &mut r, Duration::from_millis(800)) {
+                    Ok(_) => ok += 1,
+                    Err(e) if e.starts_with("reply does not verify") => {
+                        invalid += 1;
+                        first_fail.get_or_insert(e);
+                    }
+                    Err(e) => {
+                        unanswered += 1;
+                        first_fail.get_or_insert(e);
+                    }
+                }
+                std::thread::sleep(Duration::from_millis(12));
+            }
+            (ok, unanswered, invalid, first_fail)
+        })
+    };
     // probes from distinct source ports: every worker must answer, every reply must verify
     let mut keys = std::collections::HashSet::new();
     let mut ok = 0;
@@ -133,9 +160,68 @@ pub fn observe(out: &mut Out, sp: &mut ServerProc, pk: &[u8], nworkers: usize, r
             }
         }
     }
+    // a burst that arrives while the process is descheduled, together with health connections:
+    // everything queued behind one wake-up must still be served
+    if let Some(hp) = sp.cfg.health_check_port {
+        let addr: std::net::SocketAddr = format!("127.0.0.1:{}", sp.cfg.port).parse().unwrap();
+        let burst_sock = UdpSocket::bind("127.0.0.1:0").unwrap();
+        sp.signal(libc::SIGSTOP);
+        std::thread::sleep(Duration::from_millis(5));
+        let mut pending = Vec::new();
+        for j in 0..80 {
+            let (pkt, nonce) = make_request(rng, if j % 2 == 0 { Proto::Classic } else { Proto::Ietf }, None);
+            let _ = burst_sock.send_to(&pkt, addr);
+            pending.push((pkt, nonce, if j % 2 == 0 { Proto::Classic } else { Proto::Ietf }));
+        }
+        let nconn = (2 * nworkers).clamp(2, 12);
+        let hs: Vec<_> = (0..nconn).map(|_| std::thread::spawn(move || health_once(hp, Duration::from_secs(4)))).collect();
+        std::thread::sleep(Duration::from_millis(30));
+        sp.signal(libc::SIGCONT);
+        let mut bad = 0;
+        let mut why = String::new();
+        for h in hs {
+            out.obs("health_connections", 1);
+            match h.join().unwrap() {
+                Ok(r) if r.starts_with(HTTP_PREFIX) => out.obs("health_replies_ok", 1),
+                Ok(r) => {
+                    bad += 1;
+                    why = format!("answered {:?}", r);
+                }
+                Err(e) => {
+                    bad += 1;
+                    why = e;
+                }
+            }
+        }
+        out.obs("frozen_burst_with_health_phases", 1);
+        if bad > 0 {
+            v.push(("C15 health unanswered-after-burst-wakeup".into(), format!("{} of {} health-check connections that arrived together with a burst of 80 requests (process stopped meanwhile) were not answered with HTTP 200 within 4 s: {}", bad, nconn, why)));
+        }
+        burst_sock.set_read_timeout(Some(Duration::from_millis(1500))).unwrap();
+        let mut buf = vec![0u8; 4096];
+        let mut answered = 0;
+        while answered < 80 {
+            match burst_sock.recv_from(&mut buf) {
+                Ok(_) => answered += 1,
+                Err(_) => break,
+            }
+        }
+        let _ = pending;
+        out.obs("frozen_burst_replies", answered as i64);
+    }
     // stay alive for the rest of the window
     while t0.elapsed() < window {
         std::thread::sleep(Duration::from_millis(50));
+    }
+    bg_stop.store(true, std::sync::atomic::Ordering::Relaxed);
+    let (bg_ok, bg_unanswered, bg_invalid, bg_first) = bg.join().unwrap_or((0, 0, 0, None));
+    out.obs("window_probes_answered", bg_ok as i64);
+    let faulty = sp.cfg.fault_percentage.unwrap_or(0) > 0;
+    if bg_unanswered > 0 || (bg_invalid > 0 && !faulty) {
+        v.push((
+            format!("C15 window probes-{} workers={}", if bg_unanswered > 0 { "unanswered" } else { "invalid" }, if nworkers > 1 { ">1" } else { "1" }),
+            format!("during the {:?} observation window {} probes went unanswered and {} got an invalid reply ({} answered): {}", window, bg_unanswered, bg_invalid, bg_ok, bg_first.unwrap_or_default()),
+        ));
     }
     // threads (checked at the end of the window: workers are spawned one after another, so a
     // listing taken at the first reply may legitimately precede the later workers)
@@ -392,4 +478,6 @@ pub fn run(ctx: &Ctx, out: &mut Out) {
     out.floor("configs_multiworker_with_health", 1);
     out.floor("health_connections", 50);
     out.floor("probes_answered", 1000);
+    out.floor("window_probes_answered", 1000);
+    out.floor("frozen_burst_with_health_phases", 5);
 }
